@@ -77,7 +77,10 @@ def wsdl_text(d, split=False):
                     f'<output><soap:body use="literal"{nsattr}/></output>{bflt}</operation>')
     if any(o["header"] for o in d["ops"]):
         els.append('<xsd:element name="Auth"><xsd:complexType><xsd:sequence><xsd:element name="token" type="xsd:string"/></xsd:sequence></xsd:complexType></xsd:element>')
-        msgs.append('<message name="AuthHeader"><part name="auth" element="tns:Auth"/></message>')
+        # the header message has TWO parts, the binding selects one of them by name (part="auth"); the name of the
+        # other one is a prefix of it
+        els.append('<xsd:element name="Audit"><xsd:complexType><xsd:sequence><xsd:element name="who" type="xsd:string"/></xsd:sequence></xsd:complexType></xsd:element>')
+        msgs.append('<message name="AuthHeader"><part name="au" element="tns:Audit"/><part name="auth" element="tns:Auth"/></message>')
     schema_file = None
     if split:
         schema_file = f'<xsd:schema xmlns:xsd="{XSD}" xmlns:tns="{tns}" targetNamespace="{tns}" elementFormDefault="qualified">{"".join(els)}</xsd:schema>'
